@@ -1,6 +1,6 @@
 #!/bin/sh
 # Builds the framework from files on disk only (offline) and warms the build cache.
-cd /verif || exit 2
+cd "$(dirname "$0")" || exit 2
 export GOFLAGS=-mod=mod GOPROXY=off GOSUMDB=off GOTOOLCHAIN=local
 mkdir -p .bin .scratch evidence replays
 go build -tags verif -o .bin/harness ./cmd/harness || exit 1
